@@ -485,7 +485,12 @@ func (s *Smr) handleReceivedVoteMsg(msg *xuperp2p.XuperMessage) error {
 	// 存入本地voteInfo内存，查看签名数量是否超过2f+1
 	var VoteLen int
 	// 注意隐式，若!ok则证明签名数量为1，此时不可能超过2f+1
-	v, ok := s.qcVoteMsgs.LoadOrStore(utils.F(voteQC.GetProposalId()), voteQC.SignInfos)
+	// 自己给自己投票将自动忽略(CalVotesThreshold已经隐含了自己的一票)
+	if voteQC.SignInfos[0].Address == s.address {
+		return nil
+	}
+	// 只保存检查过的那一个签名, vote消息里多余的签名没有被CheckVote验证过
+	v, ok := s.qcVoteMsgs.LoadOrStore(utils.F(voteQC.GetProposalId()), []*chainedBftPb.QuorumCertSign{voteQC.SignInfos[0]})
 	// 若ok=false，则仅store一个vote签名
 	VoteLen = 1
 	if ok {
